@@ -101,7 +101,7 @@ Proof.
   { intros it' Hit. apply Hperm in Hit. exact (c09_Forall2_in_l _ _ _ _ Em Hit). }
   constructor.
   - (* every entity has its definition *)
-    intros e He.
+    intros e He _.
     assert (exists d, In d (List.concat dss) /\ d_name (kt_obs d) = c09_def_name Kotlin pfx e) as (d & Hd & Hn).
     { unfold c09_entities in He. rewrite !in_app_iff, in_flat_map, !in_map_iff in He.
       destruct He as [(s & <- & Hs)|[(en & Hen & He)|(a & <- & Ha)]].
